@@ -22,6 +22,9 @@ CHECKS = {
  "C15": ("E2-bfs+E1-enum", "exhaustive enumeration of all well-nested call trees up to a call bound on the real JSONOutput, exhaustive 1- and 2-byte strings, all (prefix, Reset, document) histories, and an explicit-state BFS de-duplicated on the object's private state",
    "Every call tree of <=15 (thorough 18) Outputter calls, every scalar/key alphabet substitution into trees of <=5 calls, all 256 one-byte and 65 536 two-byte strings as value and field name, boundary numbers, every (prefix of A, Reset, B) history for A,B<=5 calls, and a BFS over call histories keyed on the real private state (stack, inField, depth, last two output bytes) to nesting depth 3 (thorough 5) with the frontier exhausted; each output is parsed by encoding/json's tokenizer and compared with the call tree.",
    "Trusted: encoding/json as the JSON oracle. Nesting deeper than the bound and alphabets beyond those listed are outside the bound.", "§7 C15"),
+ "C07": ("E3-sched(+E5 race)", "stateless model checking of the real code: controlled cooperative scheduler owning every sync/atomic operation, depth-first enumeration of interleavings with iterative preemption bounding, sequential-specification oracle",
+   "85 scenarios of 2-3 real goroutines (concurrent first use of recursive, mutually recursive, pointer-/map-recursive and nested types; shared intern tables; pooled map-key scratch with the pool's reuse-vs-fresh answer as an explored environment choice; failing builds) run on a fresh Plenc per execution. Every schedule within the completed deviation bound is executed (small scenarios: all interleavings; others: every schedule with <=3 preemptions, 3 threads <=2 quick / 3 thorough) and each operation's result is compared with the same operation alone on a fresh instance, plus a post-quiescence probe of the instance. Failing schedules are replayed twice and must reproduce identically.",
+   "Trusted: the scheduler (sequentially consistent, switches only at sync / sync/atomic operations, instrumented via a generated import overlay of the current sources); unsynchronised accesses are looked for by the separate free-running -race pass, which is complementary and not exhaustive. Registration concurrent with use is not claimed.", "§7 C07"),
 }
 NOT_YET = "check not built yet (in progress); see DESIGN.md §7 for the planned model-checking design"
 
@@ -55,6 +58,7 @@ def main():
             "add_only": True,
         },
         "engines": [
+            {"name": "E3-sched", "path": "harness/sched + harness/vsync + harness/vatomic + harness/cmd/ovl", "serves_properties": ["C07", "C19", "C10"], "kind_free_text": "cooperative scheduler + preemption-bounded DFS over the real code; sync and sync/atomic are replaced by shims through a generated go build -overlay"},
             {"name": "E1-enum", "path": "harness/mc + harness/ref + harness/props", "serves_properties": [p for p in CHECKS if CHECKS[p][0] == "E1-enum"], "kind_free_text": "bounded exhaustive case enumeration on the real code vs. reference model, sharded over worker processes with crash/hang attribution"},
         ],
         "checks": checks,
